@@ -169,6 +169,7 @@ fn one_case(ctx: &mut Ctx, index: u64, bytes: &[u8], class: &str) {
         let mut sec: Option<u8> = None;
         let mut per_section = [0u32; 11];
         let mut d15_direct = 0usize;
+        let mut timing_keys = std::collections::HashSet::new();
         for l in lines.iter().skip(1) {
             let l = l.trim_end();
             if l.is_empty() || l.trim_start().starts_with("//") {
@@ -184,6 +185,17 @@ fn one_case(ctx: &mut Ctx, index: u64, bytes: &[u8], class: &str) {
             };
             per_section[s as usize] += 1;
             ctx.count("encoded_lines_parsed");
+            if s == 5 {
+                // one line per (time, kind): the reader keeps one timing-change and one inherited line per time, so a
+                // second line of a kind at a time already written (-0 and 0 are the same time) would be dropped
+                let f: Vec<&str> = l.split(',').collect();
+                if let (Some(Ok(t)), Some(k)) = (f.first().map(|t| t.trim().parse::<f64>()), f.get(6)) {
+                    let key = ((if t == 0.0 { 0.0f64 } else { t }).to_bits(), k.trim().starts_with('1'));
+                    if !timing_keys.insert(key) {
+                        ctx.violation("timing_line_shadowed", format!("two {} lines are written for time {t:?}: {l:?} (on read-back only one of them survives)", if key.1 { "timing-change" } else { "inherited" }), index, bytes);
+                    }
+                }
+            }
             let res = match s {
                 0 => Beatmap::parse_general(&mut st, l),
                 1 => Beatmap::parse_editor(&mut st, l),
